@@ -53,6 +53,7 @@ struct FaultRun {
     err_reads: u64,
     open_failed: bool,
     monitored_ops: u64,
+    hit: Option<(&'static str, String)>,
 }
 
 fn settle(db: &DB) {
@@ -64,7 +65,7 @@ fn run_with_fault(h: &History, plan: Option<FaultPlan>) -> FaultRun {
 }
 
 fn run_with_fault_drv(h: &History, plan: Option<FaultPlan>, drv_path: Option<&str>) -> FaultRun {
-    let mut out = FaultRun { sig: None, calls: 0, fired: 0, ok_writes: 0, err_writes: 0, err_reads: 0, open_failed: false, monitored_ops: 0 };
+    let mut out = FaultRun { sig: None, calls: 0, fired: 0, ok_writes: 0, err_writes: 0, err_reads: 0, open_failed: false, monitored_ops: 0, hit: None };
     let fs = SimFs::new();
     let mut cfg = h.cfg.clone();
     fs.reset_calls();
@@ -90,11 +91,25 @@ fn run_with_fault_drv(h: &History, plan: Option<FaultPlan>, drv_path: Option<&st
         settle(d);
     }
     let trace = std::env::var("VERIF_TRACE").is_ok();
+    // level of every table of the current version before the operation during which the fault fired
+    let mut levels_now: BTreeMap<u64, usize> = BTreeMap::new();
+    let mut fault_levels: Option<BTreeMap<u64, usize>> = None;
     for (i, op) in h.ops.iter().enumerate() {
         if out.sig.is_some() {
             break;
         }
+        if fault_levels.is_none() && fs.faults_fired() > 0 {
+            fault_levels = Some(levels_now.clone());
+        }
         let Some(d) = db.as_ref() else { break };
+        if fault_levels.is_none() {
+            levels_now.clear();
+            for (l, fsl) in d.verif_state().levels.iter().enumerate() {
+                for f in fsl {
+                    levels_now.insert(f.number, l);
+                }
+            }
+        }
         if trace {
             eprintln!("op {i} {} calls={} fired={} ok={} err={}", op.to_tok().chars().take(60).collect::<String>(), fs.calls(), fs.faults_fired(), out.ok_writes, out.err_writes);
         }
@@ -241,7 +256,18 @@ fn run_with_fault_drv(h: &History, plan: Option<FaultPlan>, drv_path: Option<&st
     out.fired = fs.faults_fired();
     // which call did the fault hit?
     let hit: Option<(&'static str, String)> = plan.as_ref().and_then(|p| fs.call_kinds().get(p.at as usize).cloned());
-    let table_read_fault = matches!(&hit, Some((k, path)) if (*k == "read_from" || *k == "read" || *k == "open_file" || *k == "len") && path.ends_with(".rdb"));
+    // The recorded finding is about the table ITERATORS: TwoLevelIterator swallows block read errors
+    // (tables of any level) and FilesEntryIterator swallows failures to open the next table of a
+    // level >= 1. A failure to open a level-0 input is reported by the unchanged code
+    // (CompactionManifest::make_merging_iterator returns it), so it is not part of the finding.
+    out.hit = hit.clone();
+    let fault_levels = fault_levels.unwrap_or(levels_now);
+    let hit_level: Option<usize> = hit.as_ref().and_then(|(_, path)| {
+        let name = path.rsplit('/').next().unwrap_or("");
+        name.strip_suffix(".rdb").and_then(|n| n.parse::<u64>().ok()).and_then(|n| fault_levels.get(&n).copied())
+    });
+    let table_read_fault = matches!(&hit, Some((k, path)) if path.ends_with(".rdb")
+        && ((*k == "read_from" || *k == "read") || ((*k == "open_file" || *k == "len") && hit_level.map_or(false, |l| l >= 1))));
     let reclass = |sig: &mut Option<(String, String)>| {
         if let Some((s, w)) = sig {
             if table_read_fault && plan.as_ref().map_or(false, |p| !p.sticky)
@@ -334,7 +360,43 @@ fn show_poss(v: &[Val]) -> String {
     v.iter().map(|x| x.as_ref().map_or("absent".to_string(), |b| format!("{}B:{}", b.len(), hex(&b[..b.len().min(6)])))).collect::<Vec<_>>().join(" | ")
 }
 
+/// sessions that each leave a level-0 table behind (recovery of a non-reused log), so that after
+/// the last reopen the table cache is cold; then reads / compactions open those tables
+fn gen_cold_tables(rng: &mut Prng) -> History {
+    let mut cfg = Cfg::gen(rng);
+    cfg.memtable = *rng.pick(&[512usize, 1024, 4096]);
+    cfg.reuse = false;
+    let space = *rng.pick(&[6u64, 12]);
+    let mut ops = vec![];
+    let sessions = rng.range(2, 4);
+    for _ in 0..sessions {
+        for _ in 0..rng.range(2, 5) {
+            ops.push(match rng.below(4) {
+                0 => Op::Del(gen_key(rng, space)),
+                1 => Op::Batch((0..rng.range(2, 4)).map(|_| (gen_key(rng, space), Some(gen_val(rng, false)))).collect()),
+                _ => Op::Put(gen_key(rng, space), gen_val(rng, false)),
+            });
+        }
+        ops.push(Op::Reopen(Cfg { reuse: false, ..cfg.clone() }));
+    }
+    for _ in 0..rng.range(1, 4) {
+        ops.push(match rng.below(6) {
+            0 => Op::Get(gen_key(rng, space)),
+            1 => Op::Scan,
+            2 => Op::Put(gen_key(rng, space), gen_val(rng, false)),
+            3 => Op::Fill(rng.below(10) as u32, rng.range(3, 10) as u32, 300),
+            _ => Op::Compact(None, None),
+        });
+    }
+    ops.push(Op::Compact(None, None));
+    ops.push(Op::Scan);
+    History { cfg, ops }
+}
+
 fn gen_history(rng: &mut Prng) -> History {
+    if rng.chance(1, 4) {
+        return gen_cold_tables(rng);
+    }
     let mut cfg = Cfg::gen(rng);
     cfg.memtable = *rng.pick(&[256usize, 512, 1024]);
     let nops = rng.range(6, 24) as usize;
@@ -390,7 +452,10 @@ pub fn run(tier: &str, seed: u64, replay: Option<&str>, corpus_dir: &str, shard:
             if pos < 0 {
                 continue;
             }
-            let r = run_with_fault(&h, Some(FaultPlan { at: pos as u64, sticky }));
+            let r = run_with_fault_drv(&h, Some(FaultPlan { at: pos as u64, sticky }), if drv_path != "none" { Some(drv_path) } else { None });
+            if std::env::var("VERIF_TRACE").is_ok() {
+                eprintln!("fault at {pos} hit {:?}", r.hit);
+            }
             rep.case(&format!("{} at={} sticky={}", h.to_line("c08"), pos, if sticky { 1 } else { 0 }), r.fired > 0);
             if let Some((sig, what)) = r.sig {
                 rep.fail("oracle", &sig, &what, line);
